@@ -97,6 +97,13 @@ def drive_b(rec, part, count):
             A.i64[i * asl:i * asl + n] = v
         for i, v in enumerate(b):
             B.i64[i * bsl:i * bsl + n] = v
+        if ar == 2 and not big and it % 7 == 3 and as_ and bs:
+            # the two sources are one and the same pointer, read with two different strides (both are only read: always well defined)
+            A = Buf(8 * (max((as_ - 1) * asl, (bs - 1) * bsl) + n), fill=0x11)
+            A.i64[:] = np.random.default_rng(rec.seed + it).integers(-(1 << 20), 1 << 20, len(A.i64), dtype=np.int64)
+            B = A
+            a = [[int(x) for x in A.i64[i * asl:i * asl + n]] for i in range(as_)]
+            b = [[int(x) for x in A.i64[i * bsl:i * bsl + n]] for i in range(bs)]
         p = rng.randrange(-(1 << 30), 1 << 30)
         if "automorphism" in op:
             p |= 1
